@@ -1,7 +1,26 @@
 (* Soundness of [safe]: if the static walk succeeds, the monitor accepts every M1 trace of
    the program - for every configuration, environment, inbox and timing. *)
-From Passage Require Import Lib.Bytes Codec.VarInt Codec.Desc Gen.PacketsGen Gen.ConstsGen
+From Passage Require Import Lib.Bytes Codec.VarInt Codec.Desc Codec.NoPanic Gen.PacketsGen Gen.ConstsGen
   Codec.PacketCheck Conn.Types Conn.Prog Conn.Sem1 Conn.Monitor.
+
+Lemma err_kind_not_panic e : e <> EPanic -> err_kind e <> KPanic.
+Proof. destruct e; cbn; congruence. Qed.
+
+Lemma conf_frame_end cfg info ka id body o :
+  conf_frame cfg info ka id body = FEnd o -> o <> OOk /\ o <> OErr KPanic.
+Proof.
+  unfold conf_frame. intros H.
+  assert (Hd : forall ds er, dec vi vl ds body = Er er -> OErr (err_kind er) <> OErr KPanic).
+  { intros ds er Hdec Heq. inversion Heq as [Hk]. apply (err_kind_not_panic er); [|exact Hk].
+    intro; subst er. exact (dec_no_panic vi vl ds body Hdec). }
+  repeat match type of H with
+         | (if ?c then _ else _) = _ => destruct c
+         | match dec vi vl ?ds body with _ => _ end = _ =>
+             let E := fresh "E" in destruct (dec vi vl ds body) eqn:E
+         | match ?x with _ => _ end = _ => destruct x
+         end; try discriminate;
+  inversion H; subst; split; try discriminate; eauto.
+Qed.
 
 Section Sound.
   Variable S : Type.
@@ -111,7 +130,7 @@ Section Sound.
         destruct (ticks_until e loc now dl ka nka (h - 1)) as [tr [[[dl' ka'] nka']|]]; exact Ht.
       + pose proof (ticks_until_ok info st loc now dl ka nka (Z.max t now) Hinv) as Ht.
         destruct (ticks_until e loc now dl ka nka (Z.max t now)) as [tr [[[dl' ka'] nka']|]]; [|exact Ht].
-        destruct ev as [id body|].
+        destruct ev as [id body| |].
         * destruct (conf_frame cfg info ka' id body) as [ka''|vs|o] eqn:Hcf.
           -- (* continue *)
              specialize (IH (Z.max t now) dl' ka'' nka' nnow).
@@ -146,27 +165,21 @@ Section Sound.
              cbn [untime map snd]. unfold Monitor.ok. cbn [Monitor.run].
              destruct (internal info (TRecv id body)) eqn:Hint.
              ++ destruct Hinv as (Hi & He & _). rewrite (Hi _ Hint).
-                assert (o <> OOk).
-                { intro; subst o. unfold conf_frame in Hcf.
-                  repeat match type of Hcf with
-                         | (if ?c then _ else _) = _ => destruct c
-                         | match ?x with _ => _ end = _ => destruct x
-                         end; discriminate. }
-                specialize (He o H). destruct (step st (TEnd o)); [discriminate | exact He].
+                destruct (conf_frame_end _ _ _ _ _ _ Hcf) as [H1 H2].
+                specialize (He o H1 H2). destruct (step st (TEnd o)); [discriminate | exact He].
              ++ unfold internal in Hint. destruct info; [|discriminate].
                 destruct (Z.eqb_spec id ci_id) as [->|]; [|discriminate].
                 destruct (Hci eq_refl body) as (st' & Hs & He). rewrite Hs.
-                assert (o <> OOk).
-                { intro; subst o. unfold conf_frame in Hcf.
-                  repeat match type of Hcf with
-                         | (if ?c then _ else _) = _ => destruct c
-                         | match ?x with _ => _ end = _ => destruct x
-                         end; discriminate. }
-                specialize (He o H). destruct (step st' (TEnd o)); [discriminate | exact He].
+                destruct (conf_frame_end _ _ _ _ _ _ Hcf) as [H1 H2].
+                specialize (He o H1 H2). destruct (step st' (TEnd o)); [discriminate | exact He].
         * (* end of stream *)
           rewrite untime_app. apply ok_app_some; [exact Ht|].
           cbn. destruct Hinv as (_ & He & _). unfold Monitor.ok. cbn.
           specialize (He (OErr KClosed)). destruct (step st (TEnd (OErr KClosed))); [discriminate | apply He; discriminate].
+        * (* refused length *)
+          rewrite untime_app. apply ok_app_some; [exact Ht|].
+          cbn. destruct Hinv as (_ & He & _). unfold Monitor.ok. cbn.
+          specialize (He (OErr KIllegalLen)). destruct (step st (TEnd (OErr KIllegalLen))); [discriminate | apply He; discriminate].
   Qed.
 
   Theorem safe_sound : forall p st s, safe step st p -> ok st (untime (exec cfg e p s)).
@@ -176,7 +189,7 @@ Section Sound.
     - (* Expect *)
       destruct Hs as [He Hk].
       destruct (next_frame s) as [[[t ev] s']|].
-      + destruct ev as [id body|].
+      + destruct ev as [id body| |].
         * specialize (Hk id body). destruct (step st (TRecv id body)) as [st'|] eqn:Hst; [|contradiction].
           destruct Hk as [He' Hk].
           destruct (negb (len_ok cfg id body)).
@@ -185,6 +198,8 @@ Section Sound.
           -- unfold Monitor.ok. cbn [untime map snd Monitor.run]. rewrite Hst. apply IH. exact Hk.
         * unfold Monitor.ok. cbn. specialize (He (OErr KClosed)).
           destruct (step st (TEnd (OErr KClosed))); [discriminate | apply He; discriminate].
+        * unfold Monitor.ok. cbn. specialize (He (OErr KIllegalLen)).
+          destruct (step st (TEnd (OErr KIllegalLen))); [discriminate | apply He; discriminate].
       + unfold Monitor.ok. cbn. specialize (He OHang).
         destruct (step st (TEnd OHang)); [discriminate | apply He; discriminate].
     - (* WaitInfo *)
